@@ -303,7 +303,7 @@ def smpAbortTlv : Tlv := genSMPTLV tlvTypeSMPAbort []
 /-- toSmpMessage1 -/
 def toSmp1 (value : Bytes) : Option Smp1Msg :=
   match extractMPIs value with
-  | some (g2a :: c2 :: d2 :: g3a :: c3 :: d3 :: _, _) => some ⟨g2a, g3a, c2, c3, d2, d3, false, []⟩
+  | some ([g2a, c2, d2, g3a, c3, d3], _) => some ⟨g2a, g3a, c2, c3, d2, d3, false, []⟩  -- repaired code: exactly six
   | _ => none
 
 /-- toSmpMessage1Q: question up to the first NUL -/
@@ -316,18 +316,18 @@ def toSmp1Q (value : Bytes) : Option Smp1Msg :=
 
 def toSmp2 (value : Bytes) : Option Smp2Msg :=
   match extractMPIs value with
-  | some (g2b :: c2 :: d2 :: g3b :: c3 :: d3 :: pb :: qb :: cp :: d5 :: d6 :: _, _) =>
+  | some ([g2b, c2, d2, g3b, c3, d3, pb, qb, cp, d5, d6], _) =>
       some ⟨g2b, g3b, c2, c3, d2, d3, pb, qb, cp, d5, d6⟩
   | _ => none
 
 def toSmp3 (value : Bytes) : Option Smp3Msg :=
   match extractMPIs value with
-  | some (pa :: qa :: cp :: d5 :: d6 :: ra :: cr :: d7 :: _, _) => some ⟨pa, qa, cp, d5, d6, d7, ra, cr⟩
+  | some ([pa, qa, cp, d5, d6, ra, cr, d7], _) => some ⟨pa, qa, cp, d5, d6, d7, ra, cr⟩
   | _ => none
 
 def toSmp4 (value : Bytes) : Option Smp4Msg :=
   match extractMPIs value with
-  | some (rb :: cr :: d7 :: _, _) => some ⟨cr, d7, rb⟩
+  | some ([rb, cr, d7], _) => some ⟨cr, d7, rb⟩
   | _ => none
 
 end Otr
